@@ -23,7 +23,8 @@ ASSUME = [
     "the acceptance window is read on the sealed whole-second timestamp: |stamp - server clock| < 180 s (a client clock 179.x s behind can seal a stamp exactly 180 s old, which the strict window refuses; that is the window of C07, not a disagreement)",
     "session ids are sampled as 0, 0x01020304, 0xffffffff; UIDs are random 16-byte strings incl. NUL / 0xff at the ends; method names of 1, 11 and 12 bytes without NUL bytes",
     "the CDN is a TLS terminator that forwards the byte stream unchanged",
-    "one connection per handshake; joining an existing session with further connections is C15's subject",
+    "multi-connection start: k = 2..4 connections of one new session are presented at the same instant (barrier) to k dispatchConnection goroutines; for database users the rig's user manager (the real LocalManager behind a wrapper) holds AuthoriseNewSession until k calls are in flight or 150 ms pass, which widens the lookup-to-registration window without a hook; all k keys must be equal and be the key of the one registered session, and requests over a client session spanning the k connections must be answered (until every connection carried client data, at most 16k requests)",
+    "connections that join a session opened earlier are C15's subject",
 ]
 
 DEVS = ["ReplyOffsetsMoved", "MethodSlice11", "FlagBitOther", "SidLittleEndian"]
@@ -62,6 +63,11 @@ def run(ctx):
         jobs["mc_agree_w3"] = pool.submit(lib.run_tlc, ctx, "Handshake", "Handshake_mc.cfg", _sub("agree", 0, w=3),
                                           tag="mc_agree_w3", workers=4, timeout=900, env=JVM)
     negf = pool.submit(neg_matrix, ctx, DEVS)
+    # the multi-connection start of one session: one critical section => one key; two steps => OneKey must break
+    jobs["multi"] = pool.submit(lib.run_tlc, ctx, "HandshakeMulti", "HandshakeMulti.cfg", {"MAXK": 4, "ATOMIC": "TRUE", "INV": "OneKey MEmit"},
+                                tag="multi", workers=1, timeout=900, env=JVM)
+    multi_neg = pool.submit(lib.run_tlc, ctx, "HandshakeMulti", "HandshakeMulti.cfg", {"MAXK": 4, "ATOMIC": "FALSE", "INV": "OneKey"},
+                            tag="multi_neg", workers=1, timeout=900, env=JVM, expect_violation=True)
     # `go test` is started now: compiling and linking the harness overlap with TLC; the test waits for <inp>.ready
     inp = os.path.join(ctx.work, "c06_cases.ndjson")
     gof = pool.submit(lambda: lib.run_go(ctx, "server", "TestVerifC06Replay", env={"VERIF_IN": inp, "VERIF_IN_WAIT": "1", "GOGC": "400"},
@@ -79,7 +85,14 @@ def run(ctx):
         cases = [b for b in res["gen_agree"].behaviours if b["verdict"] == "must-accept" and not b["tampers"]]
         if len(cases) != len(res["gen_agree"].behaviours) or not cases:
             raise lib.Inconclusive("Scope=agree must consist of must-accept cases only (%d of %d)" % (len(cases), len(res["gen_agree"].behaviours)))
-        lib.write_lines(inp, cases)
+        mn = multi_neg.result()
+        if mn.violated != "OneKey":
+            raise lib.Inconclusive("lookup and registration as two steps do not break OneKey in HandshakeMulti (%s): vacuous" % mn.violated)
+        multi = {b["k"]: b for b in res["multi"].behaviours}
+        if sorted(multi) != [2, 3, 4] or any(b["keys"] != 1 or not b["registered"] for b in res["multi"].behaviours):
+            raise lib.Inconclusive("HandshakeMulti must yield one key = the registered session's key for k = 2..4: %s" % res["multi"].behaviours[:5])
+        ctx.log("multi-connection start: one key for k = 2..4 in every interleaving (%d states); two-step variant breaks OneKey" % res["multi"].distinct)
+        lib.write_lines(inp, cases + list(multi.values()))
         open(inp + ".ready", "w").write("go")
     except BaseException:
         open(inp + ".ready", "w").write("abort")
@@ -89,6 +102,9 @@ def run(ctx):
     g = gof.result()
     lib.collect_go(ctx, g)
     gs = g["stats"]
+    ctx.log("multi-connection starts: %d (connections %s), %d with several authorisations in flight at once" % (
+        gs.get("multi_starts", 0), {k[-2:]: v for k, v in gs.items() if k.startswith("multi_connections_")},
+        gs.get("multi_starts_with_several_authorisations_in_flight", 0)))
     ctx.log("replay: %d abstract cases, %d handshakes (%d direct, %d cdn), %d end-to-end probes, stuck=%d panics=%d, %.1fs" % (
         gs.get("abstract_cases", 0), g["evaluations"], gs.get("handshakes:direct", 0), gs.get("handshakes:cdn", 0),
         gs.get("probes", 0), gs.get("dispatch_stuck", 0), gs.get("dispatch_panics", 0), gs.get("replay_wall_ms", 0) / 1000.0))
